@@ -22,11 +22,11 @@ def _subs_with_point(
 ) -> Sequence[Expr]:
     base_scalars = coordinate_system.coord_system.base_scalars()
     result: list[Expr] = []
+    # NOTE: coordinates may be expressed through the base scalars themselves, so substitute all at once
+    substitutions = {scalar: point_.coordinate(i) for i, scalar in enumerate(base_scalars)}
     for e in expr:
         expression = sympify(e, strict=True)
-        for i, scalar in enumerate(base_scalars):
-            expression = expression.subs(scalar, point_.coordinate(i))
-        result.append(expression)
+        result.append(expression.subs(substitutions, simultaneous=True))
     return result
 
 
